@@ -135,7 +135,8 @@ def run_one(res, ctx, seed):
             for name in env_reads[:6]:
                 for value in (junk.name, '1', 'ascii'):
                     other = run_host(('env', name, value), seed)
-                    other.pop('_env_reads', None)
+                    for k in ('_env_reads', '_clock_reads', '_file_opens'):
+                        other.pop(k, None)
                     res.count('environment_perturbations')
                     diff = [k for k in outs['real'] if other.get(k) != outs['real'][k]]
                     if diff:
@@ -145,6 +146,24 @@ def run_one(res, ctx, seed):
                         break
         finally:
             os.unlink(junk.name)
+    # the wall clock and files of the host: read by code of the repository?  (recorded by patched clock functions and an
+    # audit hook in the host run).  A clock reader is run again 400 days and 7 hours later and must print the same.
+    clock_reads = sorted({k for o in outs.values() for k in o.pop('_clock_reads', [])})
+    file_opens = sorted({k for o in outs.values() for k in o.pop('_file_opens', [])})
+    res.counters['clock_reads_by_the_repository'] = max(res.counters.get('clock_reads_by_the_repository', 0), len(clock_reads))
+    res.counters['host_files_opened_by_the_repository'] = max(res.counters.get('host_files_opened_by_the_repository', 0),
+                                                              len(file_opens))
+    if clock_reads:
+        later = run_host(('env', 'VERIF_CLOCK_SHIFT', str(400 * 86400 + 7 * 3600)), seed)
+        for k in ('_env_reads', '_clock_reads', '_file_opens'):
+            later.pop(k, None)
+        diff = [k for k in outs['real'] if later.get(k) != outs['real'][k]]
+        res.count('clock_perturbations')
+        if diff:
+            res.violation('c18-depends-on-the-wall-clock', f'the repository reads the current time ({clock_reads}); 400 days and '
+                          f'7 hours later the sections {diff[:4]} of the same workload differ', {'reads': clock_reads})
+    if file_opens:
+        res.notes['host_files_opened_by_the_repository'] = file_opens[:10]
     base = outs['real']
     for section, val in base.items():
         items = val.items() if isinstance(val, dict) else enumerate(val) if isinstance(val, list) else [(0, val)]
